@@ -16,6 +16,7 @@ let parse_side (s : string) : sideact =
     if n > 0 && String.contains "hfau" s.[n-1] then s.[n-1], String.sub s 0 (n-1) else ' ', s in
   let total = ref 0 in
   List.iter (fun p ->
+      if p = "I" then () else   (* a scripted idle period: no bytes *)
       let p = match String.index_opt p '~' with Some i -> String.sub p 0 i | None -> p in
       let sz, cnt = match String.index_opt p 'x' with
         | Some i -> int_of_string (String.sub p 0 i), int_of_string (String.sub p (i+1) (String.length p - i - 1))
@@ -31,6 +32,8 @@ let parse_phase (t : string) : sideact * sideact =
   | _ -> failwith ("bad phase " ^ t)
 
 exception Bad_out of string
+
+let bad_reset = ref false
 
 let aborts (a : sideact) = a.shut = 'a' || a.shut = 'u'
 (* after any full close of an end its peer may legitimately read a reset instead of EOF *)
@@ -52,7 +55,11 @@ let parse_eobs (allow_x : bool) (pfx : char) (t : string) : eobs option =
     let seen = match e with 'E' -> CleanEos | 'X' -> ResetEos | _ -> NoEos in
     (* extracted rule (C04_reset_rule): a reset is end-of-stream only once the peer is gone *)
     (match eos_flag allow_x seen with
-     | None -> raise (Bad_out "X")
+     | None ->
+         (* a reset where none is acceptable: remember it, but let the delivery / EOS oracle
+            speak first (it usually names the earlier, more telling checkpoint) *)
+         bad_reset := true;
+         Some { o_n = n_of_dec (String.sub t 1 (n-3)); o_prefix = (ok = '+'); o_eos = true }
      | Some eos -> Some { o_n = n_of_dec (String.sub t 1 (n-3)); o_prefix = (ok = '+'); o_eos = eos })
   end
 
@@ -80,8 +87,35 @@ let eobs_eq (a : eobs option) (b : eobs option) =
   | Some x, Some y -> x.o_n = y.o_n && x.o_prefix = y.o_prefix && x.o_eos = y.o_eos
   | _ -> false
 
-let judge _name ins outs =
+(* set while the tunnels of a MULTI case are judged: the proxy is shared, R is not taken *)
+let multi_mode = ref false
+
+let rec judge _name ins outs =
   match ins with
+  | "MULTI" :: via :: "|" :: rest ->
+      let split_bar l =
+        let rec go cur acc = function
+          | [] -> List.rev (List.rev cur :: acc)
+          | "|" :: tl -> go [] (List.rev cur :: acc) tl
+          | x :: tl -> go (x :: cur) acc tl in
+        go [] [] l in
+      let ins_l = split_bar rest and outs_l = split_bar outs in
+      if List.length ins_l <> List.length outs_l then
+        VPropfail ("wellformed_output", "got=" ^ String.concat "_" outs)
+      else begin
+        multi_mode := true;
+        let vs = List.mapi (fun i (si, so) ->
+            (i, try judge _name ("TUN" :: via :: si) so
+                with e -> multi_mode := false; raise e)) (List.combine ins_l outs_l) in
+        multi_mode := false;
+        (* every tunnel is judged on its own: the first one that fails names the case *)
+        let bad = List.filter (fun (_, v) -> match v with VOk _ -> false | _ -> true) vs in
+        let pf = List.filter (fun (_, v) -> match v with VPropfail _ -> true | _ -> false) bad in
+        match pf, bad with
+        | (i, VPropfail (c, d)) :: _, _ -> VPropfail (c, Printf.sprintf "tunnel=%d-of-%d %s" i (List.length vs) d)
+        | _, (i, VDisagree d) :: _ -> VDisagree (Printf.sprintf "tunnel=%d %s" i d)
+        | _ -> VOk true
+      end
   | ["FAIL"; _via] ->
       (match outs with
        | [s; w] when String.length s > 1 && s.[0] = 's' ->
@@ -130,6 +164,8 @@ let judge _name ins outs =
       let early_shut = e.[String.length e - 1] = 'h' in
       let e = if early_shut then String.sub e 0 (String.length e - 1) else e in
       let phtoks = if early_shut then "ch/t" :: phtoks else phtoks in
+      (* reader speed and dialer choice are harness matters: the expectations do not depend on them *)
+      let phtoks = List.filter (fun t -> not (List.mem t ["Zc"; "Zt"; "Zb"; "Kp"; "Kt"])) phtoks in
       let pre, phtoks = List.partition (fun t -> String.length t > 1 && t.[0] = 'G') phtoks in
       let want_pre = List.map (fun t -> "g200:" ^ String.sub t 1 (String.length t - 1)) pre in
       let probe, phtoks = match List.rev phtoks with
@@ -196,9 +232,11 @@ let judge _name ins outs =
                 let ca = ref false and ta = ref false in
                 List.map (fun (c, t) -> ca := !ca || gone c; ta := !ta || gone t; (!ca, !ta)) phases in
               if List.length obtoks <> List.length abflags then raise (Bad_out "shape");
+              bad_reset := false;
               let obs = List.map2 parse_cobs abflags obtoks in
               let rel = match rtok with
-                | "R1" -> Some true | "R0" -> Some false | "R-" -> None
+                | "R1" -> Some true | "R0" -> Some false
+                | "R-" -> if !multi_mode && all_shut nphases then Some true else None
                 | t -> raise (Bad_out t) in
               let en, bn = n_of_int early, n_of_int banner in
               if not (c04_ok en bn nphases obs rel) then begin
@@ -208,7 +246,9 @@ let judge _name ins outs =
                                Printf.sprintf "phase=%d got=%s" (int_of_nat k) (String.concat "_" outs))
                 | None ->
                     VPropfail ("release", "got=" ^ String.concat "_" outs)
-              end else if List.exists (fun t -> not (stream_ok (t = "S1"))) streams then
+              end else if !bad_reset then
+                VPropfail ("read_error", "an-end-saw-a-reset-instead-of-end-of-stream got=" ^ String.concat "_" outs)
+              else if List.exists (fun t -> not (stream_ok (t = "S1"))) streams then
                 VPropfail ("streaming_peer_not_cut_off",
                            "an-end-kept-writing-after-its-peer-aborted-and-its-write-never-failed got=" ^ String.concat "_" outs)
               else if not (target_release_ok krel) then
